@@ -43,7 +43,8 @@ func check(c *Ctx, r *Report) error {
 	r.Rule = "one case per Go function translated into Generated/SdfExpr.v; the obligations are the TRANSL_* theorems"
 	r.Trusted = []string{
 		"harness/sdfgen and harness/exprgen (Go AST -> Gallina, syntactic; literals mapped exactly: 0,1,2,0.5 by name, integers by ofZ, dyadic decimals p/2^k and decimals n/10^k by cst)",
-		"sdfgen loops: `for .. range xs`, `for i := 0; i < n; i++` (nested, `continue` at the top level of the body) become fold_left / range_loop / count_loop (coq/Num/Loop.v) over the tuple of variables the body assigns; xs[i] = v is list_set, xs[i] is nth, append is ++, make([]T, n) is repeat zero n; Go int is Z",
+		"sdfgen loops: `for .. range xs` and `for i := 0; i < len(xs); i++` become range_loop over xs (one normal form; the body may read the index, the element or xs[i]), `for i := a; i < n; i++` / `for i := range n` become count_loop (coq/Num/Loop.v), over the tuple of variables the body assigns (nested, `continue` at the top level of the body); xs[i] = v is list_set, xs[i] is nth, append is ++, make([]T, n) is repeat zero n, [n]T arrays are lists of known length; Go int is Z",
+		"sdfgen reads every non-test .go file of the package directories (build tag verif): declarations may move between files; function-local constants stand for their value; `switch` is the if-chain it abbreviates; a helper taking the struct as a parameter is translated like a method of it",
 		"sdfgen normal forms: (-x)*y, x*(-y), (-x)/y, x/(-y) are written -(x*y), -(x/y) (the same float64 up to the sign bit of a NaN); a constant product/quotient the Go compiler folds exactly is accepted only when the float64 evaluation of the rounded operands gives the correctly rounded exact value (checked per constant, e.g. 1.5*Pi)",
 		"Ops fields stand for the float64 operations of the same name (omax = math.Max, ofmod = math.Mod, ...)",
 	}
